@@ -31,7 +31,7 @@ class TranslateError(Exception):
     pass
 
 
-TOK = re.compile(r"\s*('(?:\\.|[^'\\])'|\+=|-=|==|!=|<=|>=|&&|\|\||::|->|=>|[A-Za-z_][A-Za-z0-9_]*|\d[\d_]*[a-z0-9]*|[{}()\[\],;:.|!&=<>+\-*/%#])")
+TOK = re.compile(r"\s*('(?:\\.|[^'\\])'|\"(?:[^\"\\]|\\.)*\"|\+=|-=|==|!=|<=|>=|&&|\|\||::|->|=>|[A-Za-z_][A-Za-z0-9_]*|\d[\d_]*[a-z0-9]*|[{}()\[\],;:.|!&=<>+\-*/%#?])")
 
 
 def tokenize(src):
@@ -80,6 +80,10 @@ class Fn:
         self.paths = cfg.get("paths", {})        # "A::B" -> lean term / constructor
         self.has_while = False
         self.nloop = 0
+        self.idents = cfg.get("idents", {})      # rust identifier -> lean term
+        self.fields = cfg.get("fields", {})      # rust field -> lean field
+        self.effects = cfg.get("effects", {})    # statement-level calls with side effects on the modelled world
+        self.retval = cfg.get("retval")          # what `Ok(())` / falling off the end returns (functions over a modelled world)
 
     def peek(self, k=0):
         return self.t[self.i + k] if self.i + k < len(self.t) else None
@@ -114,6 +118,8 @@ class Fn:
         if self.peek() in ("==", "!=", "<", "<=", ">", ">="):
             op = self.eat()
             b = self.add()
+            if op == ">=" and a.endswith(".digest") and b.endswith(".digest"):
+                return f"(ge {a} {b})"           # the byte order of two digests is a parameter of the model
             # comparisons are decided as Booleans (`decide` for the orders on Nat)
             return f"({a} {op} {b})" if op in ("==", "!=") else f"(decide ({a} {op} {b}))"
         return a
@@ -156,7 +162,7 @@ class Fn:
                     a = self.args()
                     e = self.method(e, name, a)
                 else:
-                    e = f"{e}.{name}"
+                    e = f"{e}.{self.fields.get(name, name)}"
             elif self.peek() == "[":
                 self.eat()
                 ix = self.expr()
@@ -167,7 +173,13 @@ class Fn:
 
     def method(self, r, name, a):
         n = len(a)
-        ident = {"iter", "copied", "clone", "collect", "chars", "to_string_lossy", "cloned", "into_iter"}
+        ident = {"iter", "copied", "clone", "collect", "chars", "to_string_lossy", "cloned", "into_iter", "to_path_buf", "to_owned", "as_os_str"}
+        if name == "join" and n == 1:
+            return f"({r}, {a[0]})"              # a location: (replica root, relative path)
+        if name == "is_err" and n == 0:
+            return f"{r}.isNone"
+        if name == "is_ok" and n == 0:
+            return f"{r}.isSome"
         if name in ident and n == 0:
             return r
         if name == "keys" and n == 0:
@@ -192,6 +204,20 @@ class Fn:
 
     def primary(self):
         tok = self.peek()
+        if tok == "|":
+            # a closure `|p, _| body` (as handed to `retain`): a function of one pair
+            self.eat()
+            names = []
+            while self.peek() != "|":
+                names.append(self.eat())
+                if self.peek() == ",":
+                    self.eat()
+            self.eat("|")
+            body = self.expr()
+            return f"(fun ({', '.join(names)}) => {body})"
+        if tok == "(" and self.peek(1) == ")":
+            self.eat(); self.eat()
+            return "()"
         if tok == "(":
             self.eat()
             items = [self.expr()]
@@ -257,7 +283,7 @@ class Fn:
                 return self.calls[tok](self.args())
             if tok in KEYWORDS:
                 raise TranslateError(f"unexpected keyword {tok}")
-            return tok
+            return self.idents.get(tok, tok)
         raise TranslateError(f"unexpected token {tok!r}")
 
     # ------------------------------------------------------------------ patterns
@@ -336,14 +362,48 @@ class Fn:
         out, pad = [], " " * ind
         while self.peek() != end:
             tok = self.peek()
+            hit = None
+            for rust, lean_line in self.cfg.get("verbatim", []):
+                tk = tokenize(rust)
+                if self.t[self.i:self.i + len(tk)] == tk:
+                    hit = (len(tk), lean_line)
+                    break
+            if hit:
+                self.i += hit[0]
+                if hit[1]:
+                    out.append(pad + hit[1])
+                continue
             if tok == "let":
                 self.eat()
+                if self.peek() == "_" and self.peek(1) == "=":
+                    # `let _ = effect(args);` — the result is dropped, the effect stays
+                    self.eat(); self.eat()
+                    out.append(pad + self.effect_stmt(question_ok=False))
+                    continue
                 pat, vars_ = self.pattern()
                 if self.peek() == ":":
                     self.eat()
                     self.skip_type()
                 self.eat("=")
-                if pat.startswith("("):
+                if self.peek() == "{":
+                    # a block expression: only the ones listed in the function's table (token-for-token), with their meaning
+                    depth, k = 0, self.i
+                    while True:
+                        depth += {"{": 1, "}": -1}.get(self.t[k], 0)
+                        k += 1
+                        if depth == 0:
+                            break
+                    body = " ".join(self.t[self.i + 1:k - 1])
+                    (n, m), = vars_
+                    known = self.cfg.get("block_exprs", {}).get(n)
+                    if known is None or " ".join(tokenize(known[0])) != body:
+                        raise TranslateError(f"block expression bound to `{n}` is not the one the translator knows: {body[:120]}")
+                    self.i = k
+                    self.eat(";")
+                    out.append(f"{pad}let {n} := {known[1]}")
+                    continue
+                if pat.startswith("(") and self.peek() == "(":
+                    save = self.i
                     # `let (mut a, mut b) = (e1, e2);` → one `let` per component
                     self.eat("(")
                     rhs = []
@@ -352,12 +412,25 @@ class Fn:
                         if self.peek() == ",":
                             self.eat()
                     self.eat(")")
-                    if len(rhs) != len(vars_):
-                        raise TranslateError("tuple let of different arity")
-                    for (n, m), e in zip(vars_, rhs):
-                        out.append(f"{pad}let {'mut ' if m else ''}{n} := {e}")
+                    if self.peek() == ";" and len(rhs) == len(vars_) and all("some " not in x for x in [pat]):
+                        for (n, m), e in zip(vars_, rhs):
+                            out.append(f"{pad}let {'mut ' if m else ''}{n} := {e}")
+                        self.eat(";")
+                        continue
+                    self.i = save
+                e = self.expr()
+                if self.peek() == "else":
+                    # let-else: the only alternative translated is leaving the function with its normal result
+                    self.eat()
+                    self.eat("{"); self.eat("return"); alt = self.expr(); self.eat(";"); self.eat("}")
+                    self.eat(";")
+                    out.append(f"{pad}let {pat} := {e} | return {self.ret(alt)}")
+                    continue
+                if pat.startswith("("):
+                    if any(m for _, m in vars_):
+                        raise TranslateError("tuple let with `mut` from a non-literal")
+                    out.append(f"{pad}let {pat} := {e}")
                 else:
-                    e = self.expr()
                     (n, m), = vars_
                     out.append(f"{pad}let {'mut ' if m else ''}{n} := {e}")
                 self.eat(";")
@@ -384,6 +457,23 @@ class Fn:
                 out.append(f"{pad}  return none")
             elif tok == "if":
                 out += self.if_(ind)
+            elif tok == "match":
+                self.eat()
+                e = self.expr()
+                self.eat("{")
+                out.append(f"{pad}match {e} with")
+                while self.peek() != "}":
+                    pat, _ = self.pattern()
+                    self.eat("=>")
+                    out.append(f"{pad}| {pat} =>")
+                    if self.peek() != "{":
+                        raise TranslateError("match arm that is not a block")
+                    out += self.block(ind + 2)
+                    if self.peek() == ",":
+                        self.eat()
+                self.eat("}")
+            elif self.is_effect_call():
+                out.append(pad + self.effect_stmt(question_ok=True))
             elif tok == "continue":
                 self.eat()
                 self.eat(";")
@@ -416,7 +506,35 @@ class Fn:
         return out
 
     def ret(self, e):
+        if self.retval is not None:
+            if e != "OK":
+                raise TranslateError(f"this function can only return Ok(()), found {e}")
+            return self.retval
         return f"(some {e})" if self.cfg.get("option") else e
+
+    def is_effect_call(self):
+        k = self.i
+        parts = []
+        while k < len(self.t) and (IDENT.match(self.t[k]) or self.t[k] == "::"):
+            parts.append(self.t[k]); k += 1
+        return "".join(parts) in self.effects and k < len(self.t) and self.t[k] == "("
+
+    def effect_stmt(self, question_ok):
+        parts = []
+        while IDENT.match(self.peek()) or self.peek() == "::":
+            parts.append(self.eat())
+        name = "".join(parts)
+        if name not in self.effects:
+            raise TranslateError(f"call of {name} is outside the translated subset")
+        a = self.args()
+        q = False
+        if self.peek() == "?":
+            self.eat(); q = True
+        self.eat(";")
+        fallible, fn = self.effects[name]
+        if fallible != q or (q and not question_ok):
+            raise TranslateError(f"{name}: error handling changed (`?` {'expected' if fallible else 'unexpected'})")
+        return fn(a)
 
     def expr_or_mutation(self, ind):
         """`a.b.push(x);` / `.sort()` / `.sort_unstable()` / `.dedup()` — else None (caller rewinds)"""
@@ -429,12 +547,20 @@ class Fn:
         if len(toks) < 3 or toks[-2] != "." or k >= len(self.t) or self.t[k] != "(":
             return None
         name = toks[-1]
-        if name not in ("push", "sort", "sort_unstable", "dedup"):
+        if name not in ("push", "sort", "sort_unstable", "dedup", "insert", "remove", "retain"):
             return None
         lv = "".join(toks[:-2])
         self.i = k
         a = self.args()
         self.eat(";")
+        if name == "push" and len(a) == 1 and lv in self.cfg.get("push_override", {}):
+            return pad + self.cfg["push_override"][lv]
+        if name == "retain" and len(a) == 1:
+            return pad + self.lvalue_assign(lv, f"{lv}.filter {a[0]}")
+        if name == "insert" and len(a) == 2:
+            return pad + self.lvalue_assign(lv, f"cIns {lv} {a[0]} {a[1]}")
+        if name == "remove" and len(a) == 1:
+            return pad + self.lvalue_assign(lv, f"cDel {lv} {a[0]}")
         if name == "push" and len(a) == 1:
             return pad + self.lvalue_assign(lv, f"{lv} ++ [{a[0]}]")
         if name in ("sort", "sort_unstable") and not a:
@@ -478,6 +604,51 @@ FUNCS = [
               "    (a b base : List (K × Copia.Reconcile.Fp D)) (trust_base : Bool) : List (K × Copia.Reconcile.Action) := Id.run do",
          calls={"reconcile_path": rp},
          paths={"Vec::new": "[]", "Action::Noop": "Copia.Reconcile.Action.noop"}),
+    dict(group="bidir", file="src/bin/copia/bidir.rs", name="apply",
+         sig="fn apply( root_a: &Path, root_b: &Path, rel: &Path, act: Action, a: &FpMap, b: &FpMap, host: &str, common: &mut FpMap, conflicts: &mut Vec<PathBuf>, ) -> std::io::Result<()>",
+         lean="def apply {P C : Type} [DecidableEq P] [DecidableEq C] (ge : C → C → Bool) (cname : P → C → P)\n"
+              "    (a b : List (P × Copia.Reconcile.Fp C)) (l : Copia.Bisync.Live P C) (rel : P) (act : Copia.Reconcile.Action) :\n"
+              "    Option (Copia.Bisync.Live P C × Bool) := do\n"
+              "  -- the file system under the two roots, the `common` map and the conflict list are the function's world\n"
+              "  let mut fs : FS P C := (l.A, l.B)\n"
+              "  let mut common := l.common\n"
+              "  let mut conflicts := false",
+         retval="({ A := fs.1, B := fs.2, common := common }, conflicts)",
+         calls={"Ok": lambda a: "OK" if a == ["()"] else (_ for _ in ()).throw(TranslateError("Ok(..) with a value"))},
+         effects={"copy_atomic": (True, lambda a: f"fs ← fsCopy fs {a[0]} {a[1]}"),
+                  "std::fs::remove_file": (False, lambda a: f"fs := fsDel fs {a[0]}")},
+         idents={"root_a": "Side.a", "root_b": "Side.b"}, fields={"blake3": "digest"},
+         push_override={"conflicts": "conflicts := true"},
+         block_exprs={"loser_name": ('let mut n = rel.as_os_str().to_owned(); n.push(format!(".conflict-{host}-{}", short_hex(&lose_fp.blake3))); PathBuf::from(n)',
+                                     "cname rel lose_fp.digest")},
+         paths={"std::fs::symlink_metadata": "fsGet fs",
+                "Action::Noop": "Copia.Reconcile.Action.noop", "Action::ConvergeIdentical": "Copia.Reconcile.Action.convergeIdentical",
+                "Action::PropagateAtoB": "Copia.Reconcile.Action.propagateAtoB", "Action::PropagateBtoA": "Copia.Reconcile.Action.propagateBtoA",
+                "Action::DeleteA": "Copia.Reconcile.Action.deleteA", "Action::DeleteB": "Copia.Reconcile.Action.deleteB",
+                "Action::Conflict": "Copia.Reconcile.Action.conflict",
+                "ConflictKind::DeleteVsModify": "Copia.Reconcile.ConflictKind.deleteVsModify", "ConflictKind::BothChanged": "Copia.Reconcile.ConflictKind.bothChanged"}),
+    dict(group="bidir", file="src/bin/copia/bidir.rs", name="run_bisync (from `let mut common = base;` to `arc.save(&apath)?;`)", fn="run_bisync", sig=None,
+         slice=("let mut common = base;", "arc.save(&apath)?;"),
+         lean="def applyAndRecord {P C : Type} [DecidableEq P] [DecidableEq C] (ge : C → C → Bool) (cname : P → C → P)\n"
+              "    (a b base : List (P × Copia.Reconcile.Fp C)) (plan : List (P × Copia.Reconcile.Action)) (fs0 : FS P C) :\n"
+              "    Option (FS P C × Option (List (P × Copia.Reconcile.Fp C)) × Nat) := do\n"
+              "  -- world: the file system under the two roots, the archive file (`recorded`), the number of conflict paths\n"
+              "  let mut fs := fs0\n"
+              "  let mut recorded := none",
+         epilogue=["return (fs, recorded, conflict_paths)"],
+         verbatim=[("let mut conflict_paths: Vec<PathBuf> = Vec::new();", "let mut conflict_paths := (0 : Nat)"),
+                   ("apply( root_a, root_b, path, *act, &a, &b, &host, &mut common, &mut conflict_paths, )?;",
+                    "let r ← apply ge cname a b { A := fs.1, B := fs.2, common := common } path act\n"
+                    "    fs := (r.1.A, r.1.B)\n"
+                    "    common := r.1.common\n"
+                    "    if r.2 then\n"
+                    "      conflict_paths := conflict_paths + 1"),
+                   ("let mut arc = loaded.unwrap_or_else(|| Archive::fresh(pair.clone(), host.clone()));", ""),
+                   ("arc.entries = common;", ""),
+                   ("arc.epoch += 1;", ""),
+                   ("arc.host_id = host;", ""),
+                   ("arc.save(&apath)?;", "recorded := some common")],
+         calls={}, paths={}),
     dict(group="plan", file="src/bin/copia/plan.rs", name="build_plan",
          sig="fn build_plan( src: &MetaMap, dst: &MetaMap, excludes: &[String], with_delete: bool, ) -> SyncPlan",
          lean="def buildPlan {K : Type} [DecidableEq K] (le : K → K → Bool) (excl : K → Bool)\n"
@@ -498,6 +669,7 @@ FUNCS = [
 
 PREAMBLE = '''import Copia.Gen.Decisions
 import Copia.Model.LoopSupport
+import Copia.Model.BidirSupport
 /-!
 GENERATED by tools/rs2lean_do.py from %s — do not edit.
 Each definition is the source function statement by statement (see the translator's header for what
@@ -507,9 +679,11 @@ namespace Copia.Gen.Loops
 open Copia.Reconcile (lookup dedupAdj)
 open Copia.Plan (trimEndSlash splitSlash)
 open Copia.LoopSupport
+open Copia.Bisync (cIns cDel)
+open Copia.BidirSupport
 '''
 
-GROUPS = {"reconcile": "LoopsReconcile.lean", "plan": "LoopsPlan.lean"}
+GROUPS = {"reconcile": "LoopsReconcile.lean", "plan": "LoopsPlan.lean", "bidir": "LoopsBidir.lean"}
 
 
 def translate(group):
@@ -518,12 +692,20 @@ def translate(group):
     for f in fs:
         text = open(os.path.join(REPO, f["file"])).read()
         text = text.split("#[cfg(kani)]")[0].split("#[cfg(test)]")[0]
-        sig, body = fn_source(text, f["name"])
+        sig, body = fn_source(text, f.get("fn", f["name"]))
         sig = re.sub(r"^pub ", "", sig)
-        if " ".join(sig.split()) != f["sig"]:
+        if f.get("sig") is not None and " ".join(sig.split()) != f["sig"]:
             raise TranslateError(f"{f['name']}: signature changed: {sig!r}")
+        if "slice" in f:
+            # a SECTION of the function body: from the first statement named to the last one named (both must occur exactly once)
+            a0, a1 = f["slice"]
+            if body.count(a0) != 1 or body.count(a1) != 1 or body.index(a0) > body.index(a1):
+                raise TranslateError(f"{f['name']}: the section `{a0}` … `{a1}` is no longer there")
+            body = "{" + body[body.index(a0):body.index(a1) + len(a1)] + "}"
         t = Fn(tokenize(body), f)
         lines = t.block(2)
+        if f.get("epilogue"):
+            lines += ["  " + x for x in f["epilogue"]]
         if t.i != len(t.t):
             raise TranslateError(f"{f['name']}: trailing tokens")
         if t.has_while != bool(f.get("option")):
